@@ -60,6 +60,7 @@ UNARY = [
     ("acc_add", dict(kind="accumulate", f="add"), ("i",), _same),
     ("acc_add_start", dict(kind="accumulate", f="add", lits=[["i", 1]]), ("i",), _same),
     ("acc_max", dict(kind="accumulate", f="max"), ("i",), _same),
+    ("frequencies", dict(kind="accumulate", f="freq", lits=[["t", []]]), ("i",), _const("d")),      # Stream.frequencies()
     ("acc_addrs", dict(kind="accumulate", f="addrs", b1=True, lits=[["i", 0]]), ("i",), _same),
     ("acc_add_ws", dict(kind="accumulate", f="add", b2=True), ("i",), _const("t2")),
     ("acc_addrs_ws", dict(kind="accumulate", f="addrs", b1=True, b2=True, lits=[["i", 0]]), ("i",), _const("t2")),
@@ -104,6 +105,11 @@ UNARY = [
     ("union1", dict(kind="union"), ANY, _same),
     ("stream", dict(kind="stream"), ANY, _same),
 ]
+# a frequency table ("d": a dict -- unhashable, iterating it yields its keys) may flow through the nodes that neither hash nor
+# unpack what they carry
+_OPAQUE = {"map_id", "filter_true", "slice_all", "slice_1_none_2", "slice_0_2_1", "slice_1_3_1", "partition_1", "partition_2", "partition_3",
+           "sliding_1", "sliding_2_partial", "sliding_2_full", "sliding_3_partial", "collect", "union1", "stream"}
+UNARY = [(lab, kw, (acc + ("d",)) if lab in _OPAQUE else acc, out) for (lab, kw, acc, out) in UNARY]
 UNARY_BY_LABEL = {u[0]: u for u in UNARY}
 
 
@@ -225,7 +231,7 @@ def catalogue(tier):
     core2 = ["map_inc", "filter_even", "acc_add", "slice_1_none_2", "slice_0_2_1", "partition_2",
              "partition_2_mod2", "punique_2_mod2_first", "punique_2_id_last", "sliding_2_partial",
              "sliding_2_full", "unique", "unique_max1", "unique_list_max1", "flatten", "map_pair",
-             "pluck_1", "pluck_list1", "collect", "starmap_add2", "map_rep", "acc_add_ws"]
+             "pluck_1", "pluck_list1", "frequencies", "collect", "starmap_add2", "map_rep", "acc_add_ws"]
     if tier == "quick":
         progs += [c for c in chains(2, core2) if c[0].count(">") == 1]
     else:
